@@ -402,6 +402,12 @@ def jobs(tier):
     for fmt in ("glyf_colr_1", "cbdt", "picosvg", "untouchedsvg") if tier == "quick" else CFG._COLOR_FORMATS:
         js.append(Job(f"ufo[{fmt}]", job_ufo, fmt=fmt))
     js.append(Job("format_table", job_format_table))
+    # the user transform reaches glyph placement in font space and in OT-SVG space (kernel of C01/C02)
+    from harness import C01
+
+    for which in ("font", "otsvg"):
+        for u in ("translate", "general"):
+            js.append(Job(f"place[{which},{u}]", C01.job_place, which=which, user=u))
     for c1 in BITMAP_COMBOS:
         for c2 in BITMAP_COMBOS:
             for shared in (True, False):
